@@ -64,9 +64,11 @@ def make_exchange(contracts, quote=(100.0, 100.0), rate=0.0, t=T0):
 
 
 def make_broker(contracts, deposit=65536.0, fixed=0.0, proportional=0.0, markup=0.0,
-                quote=(100.0, 100.0), rate=0.0):
+                quote=(100.0, 100.0), rate=0.0, epsilon=None):
     ex = make_exchange(contracts, quote, rate)
     fees = BrokerFees(markup=markup, interest_rate=RATE, proportional=proportional, fixed=fixed)
+    if epsilon is not None:
+        return Broker(ex, deposit=deposit, fees=fees, epsilon=epsilon)     # public option: size below which a position counts as flat
     return Broker(ex, deposit=deposit, fees=fees)
 
 
